@@ -47,6 +47,29 @@ structure PipeSess where
   p : Pipe Float
   flags : ParserFlags
   dead : Bool := false
+  /-- counter values at the previous scrape: (family, labels) ↦ value (spec side of C06) -/
+  prevCounters : List ((Bytes × Labels) × Float) := []
+
+/-- why the model's Gather fails (known-finding signatures) -/
+def gatherClass (r : Reg Float) : String :=
+  let live := r.metrics.filter (!·.series.isEmpty)
+  if !(live.all helpConsistent) then "help_mismatch"
+  else if !(live.all (fun m => r.pre.all fun p => p.1 != m.name ||
+      (p.2.1 == m.ty && m.series.all fun s => ((m.vecs.find? (·.names == s.labels.map (·.1))).map (·.help)) == some p.2.2)))
+    then "preregistered_name_collision"
+  else "observer_companion_unchecked"
+
+def counterValues (r : Reg Float) : List ((Bytes × Labels) × Float) :=
+  r.metrics.flatMap fun m =>
+    if m.ty == .counter then m.series.map fun s => ((m.name, s.labels), s.f + s.n.toFloat) else []
+
+/-- C06 at a scrape: a counter present at the previous scrape and now must not have decreased, and none may be NaN -/
+def counterNotes (prev cur : List ((Bytes × Labels) × Float)) : List String :=
+  cur.filterMap fun (k, v) =>
+    if v.isNaN then some "counter:none:NaN" else
+    match prev.find? (·.1 == k) with
+    | some (_, old) => if v < old then some s!"counter:counter_uint64_wrap:{encHex k.1} {floatToHex old}->{floatToHex v}" else none
+    | none => none
 
 def rdDictTok (t : String) : Option (Bytes × Float × PfErr) :=
   match parseDict [t] with
@@ -70,20 +93,31 @@ def pipeSub (s : PipeSess) (toks : List String) : PipeSess × String :=
       | some d, some (rxl, []) =>
         if hugeGuard (dictPf d) l then (s, "skip-huge") else
         let o := lineToEvents s.flags (dictPf d) (validUtf8 l) l
+        let mult := if o.events.length > 64 * l.length then "\tmult:sampling_multiplicity_unbounded:" ++ toString o.events.length else ""
         match handleEvents s.p (rxOf s.p.mapper.cfg rxl) o.labels o.events with
         | none => ({ s with dead := true }, "unmodelled")
-        | some (.error .summaryHang) => ({ s with dead := true }, "hang")
-        | some (.error _) => ({ s with dead := true }, "panic")
-        | some (.ok p') => ({ s with p := p' }, "ok")
+        | some (.error .summaryHang) => ({ s with dead := true }, "hang\tpanic:loader_accepts_tiny_max_age:summary stream duration 0")
+        | some (.error .bucketsNotIncreasing) => ({ s with dead := true }, "panic\tpanic:loader_accepts_unsorted_buckets:histogram buckets not strictly increasing")
+        | some (.error .negativeMaxAge) => ({ s with dead := true }, "panic\tpanic:loader_accepts_negative_max_age:summary max_age < 0")
+        | some (.error _) => ({ s with dead := true }, "panic\tpanic:none:")
+        | some (.ok p') => ({ s with p := p' }, "ok" ++ mult)
       | _, _ => (s, "bad-op")
     | _, _ => (s, "bad-op")
   | ["adv", ns] =>
     match ns.toInt? with
     | some d => ({ s with p := { s.p with now := s.p.now + d } }, "ok")
     | none => (s, "bad-op")
-  | ["sweep"] => ({ s with p := { s.p with reg := s.p.reg.sweep s.p.now } }, "ok")
+  | ["sweep"] =>
+    let reg := s.p.reg.sweep s.p.now
+    -- a series that expired is a new series if it comes back (C06's exception)
+    let alive := counterValues reg
+    ({ s with p := { s.p with reg := reg }, prevCounters := s.prevCounters.filter fun (k, _) => alive.any (·.1 == k) }, "ok")
   | ["scrape"] =>
-    if s.p.reg.gatherPanics then ({ s with dead := true }, "gather-panic") else (s, scrapeStr s.p)
+    if s.p.reg.gatherPanics then ({ s with dead := true }, "gather-panic\tgather:loader_accepts_bad_quantile:summary objective outside 0..1") else
+    if !s.p.reg.gatherOk then (s, "gather-error\tgather:" ++ gatherClass s.p.reg ++ ":") else
+    let cur := counterValues s.p.reg
+    let notes := counterNotes s.prevCounters cur
+    ({ s with prevCounters := cur }, scrapeStr s.p ++ (if notes.isEmpty then "" else "\t" ++ "|".intercalate notes))
   | _ => (s, "bad-op")
 
 def rdPre : Rd (Bytes × MType × Bytes) := do
